@@ -468,6 +468,7 @@ class Gen:
         env = list(param_types)
         ncalls = ncalls or r.randint(1, 3)
         addrs = list(addrs) if addrs else r.sample(ADDRS, ncalls)
+        ncalls = min(ncalls, len(addrs))
         calls = []
         for addr in addrs[:ncalls]:
             kinds = ["dist"] * 3
@@ -510,7 +511,9 @@ class Gen:
                 if tb[0] == "fn" and r.random() < 0.8:
                     fb = self.mutate(tb)
                 else:
-                    fb = self.scalar_gf(np_, 0) if tb[0] == "dist" else self.fn(["S"] * np_, 0)
+                    # independent second branch: addresses disjoint from the first branch's
+                    free = [a for a in ADDRS + ["f", "g", "h"] if tb[0] != "fn" or a not in callees(tb)]
+                    fb = self.scalar_gf(np_, 0) if tb[0] == "dist" else self.fn(["S"] * np_, 0, addrs=r.sample(free, 3))
                 check = ("<", self.sexpr(env, 1), self.sexpr(env, 1))
                 calls.append((addr, ("cond", tb, fb), [check] + [self.sexpr(env) for _ in range(np_)], "S"))
             env.append(calls[-1][3])
